@@ -18,9 +18,9 @@ from vf.xlate import BACKENDS, translate
 RULE = (
     "case = (back end, generated host query, graft kind, graft position = index of the numeric / column production it replaces). asserted "
     "catalogue: operators // << >> | ^ & @ ~, comparison chains, in / is, Aggregate(f) and Aggregate(f, g), Sum / Max / Min with an argument, accumulators of one or three parameters, slices, + - * / % ** unary and "
-    "comparison with a collection operand, math functions of a collection, raw-object output columns (collection, singleton, First() of objects, object in a tuple), sequence "
+    "comparison with a collection operand, math functions of a collection, a collection / sequence / object / string where a truth value is needed (and / or operand, conditional test, Where predicate), First() with a predicate or default, raw-object output columns (collection, singleton, First() of objects, object in a tuple), sequence "
     "operators on a scalar, a member or method of a number / bool, arithmetic with a string or an object operand, wrong number of column names, getAttribute, math.sin module calls, keyword arguments (silently dropped before the fix), metadata without / with unknown "
-    "metadata_type, with a missing, unknown or misspelt key, with a string where a list of strings is documented, with both return_type and return_type_element. non-trivial = graft at lambda depth >= 2 or behind a rewrite (First-method, fused "
+    "metadata_type, with a missing, unknown or misspelt key, with a string where a list of strings is documented, with both return_type and return_type_element, a block of an executor-registered (extended) metadata type with a misspelt key. non-trivial = graft at lambda depth >= 2 or behind a rewrite (First-method, fused "
     "Select/Where, ifexp arm, and/or operand); distinct by (graft kind, depth, host shape)."
 )
 
@@ -36,10 +36,12 @@ NUM_GRAFTS = [
     "num-op-str", "str-op-num", "num-op-obj", "obj-op-num", "agg-obj",
     "sum-selector", "max-arg", "min-selector", "agg-acc1", "agg-acc3",
     "seq-fn-pow", "seq-fn-sqrt", "seq-fn-abs", "seq-fn-fmax",
+    "first-pred", "first-pred-obj", "first-pred-default",
+    "seq-truth-and", "seq-truth-or", "seq-truth-if", "seq-truth-where", "vec-truth-if", "vec-truth-where", "vec-truth-and", "str-truth-if", "obj-truth-if", "obj-truth-and",
 ]
 COL_GRAFTS = ["raw-collection", "raw-singleton", "raw-first-object", "raw-object-var", "raw-objvec"]
 TOP_GRAFTS = ["names-too-few", "names-too-many", "md-no-type", "md-unknown-type", "md-missing-key", "md-unknown-key", "md-unknown-key-cppfn", "md-string-for-list",
-              "md-both-return-types"]
+              "md-both-return-types", "md-extended-unknown-key"]
 EXTENDED = ["kwarg", "set", "genexp", "starred", "walrus", "fstring", "lambda-arity"]  # collect-only, not asserted
 
 
@@ -102,6 +104,48 @@ class GraftGen(QGen):
             return {"sum-selector": f"({os_[0]}.Sum(lambda sx: sx * {M}) + {t})", "max-arg": f"({os_[0]}.Max({M}) + {t})",
                     "min-selector": f"({os_[0]}.Min(lambda sx: sx - {M}) + {t})", "agg-acc1": f"({os_[0]}.Aggregate({M}.5, lambda a1: a1 + 1) + {t})",
                     "agg-acc3": f"({os_[0]}.Aggregate({M}.5, lambda a1, a2, a3: a1 + a2) + {t})"}[k]
+        if k in ("first-pred", "first-pred-default"):
+            # First() takes the sequence and nothing else: a predicate (or a default) would be dropped
+            self.noflat += 1
+            os_ = self.numseq(scope, 0)
+            self.noflat -= 1
+            if os_ is None:
+                return None
+            return f"({os_[0]}.First(lambda fx: fx > {M}) + {t})" if k == "first-pred" else f"(First({os_[0]}, lambda fx: fx < {M}, {M}) + {t})"
+        if k == "first-pred-obj":
+            s_ = self._collection_text(scope)
+            if s_ is None:
+                return None
+            cls = [c for c in self.s.colls if f".{c.accessor}(" in s_][0].element
+            ms = [m for m in self.s.classes[cls].methods if m.kind == "num" and not m.member and not m.enum]
+            if not ms:
+                return None
+            m = self.pick(ms).name
+            return f"({s_}.First(lambda fo: fo.{m}() < {M}).{m}() + {t})"
+        if k in ("seq-truth-and", "seq-truth-or", "seq-truth-if", "seq-truth-where"):
+            # a collection / sequence where a truth value is needed ('not seq' is refused too)
+            s_ = self._collection_text(scope)
+            if s_ is None:
+                return None
+            if self.chance(1, 2):
+                s_ = f"{s_}.Select(lambda tv: {M})"
+            return {"seq-truth-and": f"(1 if ({s_} and {t} > {M}) else 0)", "seq-truth-or": f"(1 if ({t} > {M} or {s_}) else 0)", "seq-truth-if": f"({M} if {s_} else {t})",
+                    "seq-truth-where": f"({s_}.Where(lambda tw: {s_}).Count() + {M})"}[k]
+        if k in ("vec-truth-if", "vec-truth-where", "vec-truth-and"):
+            v = self._vec_text(scope)
+            if v is None:
+                return None
+            objs = self.obj_sources(scope, 0)
+            return {"vec-truth-if": f"({M} if {v} else {t})", "vec-truth-and": f"(1 if ({t} > {M} and {v}) else 0)",
+                    "vec-truth-where": f"({v}.Where(lambda tw: {v}).Count() + {M})"}[k]
+        if k == "str-truth-if":
+            return self.pick([f"({M} if 's{M}' else {t})", f"({M} if '' else {t} + {M})", f"(1 if ('s{M}' and {t} > 0) else 0)"])
+        if k in ("obj-truth-if", "obj-truth-and"):
+            objs = self.obj_sources(scope, 0)
+            if not objs:
+                return None
+            o = self.pick(objs)[0]
+            return f"({M} if {o} else {t})" if k == "obj-truth-if" else f"(1 if ({o} and {t} > {M}) else 0)"
         if k == "kwarg-function":
             return f"sin({t}, extra={M})"
         if k == "kwarg-method":
@@ -253,6 +297,10 @@ def cases(draw, backend):
                 md[draw(st.sampled_from(lists[md["metadata_type"]]))] = draw(st.sampled_from(["file1.hpp", "x", "print(1)"]))
             elif kind == "md-both-return-types":
                 md = dict(good, return_type_element="float")
+            elif kind == "md-extended-unknown-key":
+                # a metadata type the executor's owner registered (what LocalDataset does for 'docker'): a misspelt key would be dropped
+                md = draw(st.sampled_from([{"metadata_type": "vf_docker", "imge": "my/image:1"}, {"metadata_type": "vf_docker", "image": "my/image:1", "tag": "latest"},
+                                           {"metadata_type": "vf_docker", "Image": "x"}]))
             elif kind == "md-unknown-key-cppfn":
                 # known finding: the pinned tests hand add_cpp_function a 'result' / 'return_pointer_depth' key nobody reads
                 md = dict(pool[3])
@@ -318,11 +366,26 @@ def check(c):
         ast.parse(c["text"], mode="eval")
     except SyntaxError:
         raise Discard("host+graft is not Python")
+    exe = None
+    if c["kind"] == "md-extended-unknown-key":
+        import dataclasses
+
+        from vf.xlate import make_executor
+
+        @dataclasses.dataclass
+        class VfDocker:
+            image: str
+
+        exe = make_executor(c["backend"])
+        exe.add_extended_md({"vf_docker": VfDocker("default/image:0")})
+        # (the well-formed block is accepted by this executor)
+        translate(c["text"].replace(c["text"][c["text"].index("{'metadata_type': 'vf_docker'"):c["text"].index("}", c["text"].index("{'metadata_type': 'vf_docker'")) + 1],
+                                    "{'metadata_type': 'vf_docker', 'image': 'my/image:1'}"), c["backend"], exe=exe)
     try:
-        pkg = translate(c["text"], c["backend"])
+        pkg = translate(c["text"], c["backend"], exe=exe)
     except Exception as e:
         return type(e).__name__
-    if c["kind"] in NUM_GRAFTS and not c["kind"].startswith("kwarg") and c["kind"] not in ("sum-selector", "max-arg", "min-selector"):
+    if c["kind"] in NUM_GRAFTS and not c["kind"].startswith("kwarg") and c["kind"] not in ("sum-selector", "max-arg", "min-selector", "first-pred", "first-pred-obj", "first-pred-default"):
         # did the graft reach the translator at all?  func_adl's normalisations (the executor's first step)
         # legitimately drop values nothing uses (Select(f).Select(lambda v: 0), identity Selects)
         from vf.xlate import make_executor
